@@ -190,3 +190,16 @@ Example C18_example_m5_m6 :
   /\ partition_check [1;2;3;4;5;6] [ [1;4;2;5;3;6] ; [6;3;5;2;4;1] ; [2;5;1;4;6;3] ] [ [1;2;3] ; [4;5;6] ] = true
   /\ length (set_partitions [1;2;3;4;5]) = 52%nat.
 Proof. repeat split; vm_compute; reflexivity. Qed.
+
+(* OPEN FINDING KF-C18-a (known_findings.json; notes/c18_bruteforce_not_minimum_repro.py): on this profile the optimum is 2
+   ([1;5], [2;3;4;6]) but /repo's k_alternative_partition_brut_force answers None for k = 2 and the valid 3-axis partition
+   [[1;3];[2;5;6];[4]] for k >= 3; both answers violate the second sentence of the property. *)
+Example C18_finding_KF_C18_a :
+  let alts := [1;2;3;4;5;6] in
+  let profile := [ [1;2;3;4;5;6] ; [5;1;4;6;3;2] ; [2;5;3;4;1;6] ] in
+  min_partition alts profile = 2%nat
+  /\ partition_check alts profile [ [1;5] ; [2;3;4;6] ] = true
+  /\ brute_force_ok alts profile 2 None = false
+  /\ partition_check alts profile [ [1;3] ; [2;5;6] ; [4] ] = true
+  /\ brute_force_ok alts profile 3 (Some [ [1;3] ; [2;5;6] ; [4] ]) = false.
+Proof. repeat split; vm_compute; reflexivity. Qed.
